@@ -176,6 +176,7 @@ type World struct {
 	SetIdx  map[string]boltz.SetReadIndex // "<store>.roles"
 	Links   map[string]boltz.LinkCollection
 	RcLinks map[string]boltz.RefCountedLinkCollection
+	MigSeq  int // migration-step transactions run so far (each is a component of its own)
 }
 
 func (w *World) Close() { w.Z.Close() }
